@@ -76,6 +76,22 @@ def lean_sources_hash():
     return h.hexdigest()
 
 
+def regenerate_tables():
+    """translator tie: Model/Tables.lean is regenerated from the Go sources of internal/analysis on every
+    run (written only when its content changes, so that an unchanged tree costs no rebuild).
+    Returns None on success, or an error text."""
+    r = subprocess.run(["go", "run", ".", REPO], cwd=os.path.join(VERIF, "extract"), env=GOENV,
+                       stdout=subprocess.PIPE, stderr=subprocess.PIPE, text=True)
+    if r.returncode != 0:
+        return "table extraction failed: " + r.stderr[-500:]
+    path = os.path.join(LEAN, "Model", "Tables.lean")
+    old = open(path).read() if os.path.exists(path) else ""
+    if old != r.stdout:
+        with open(path, "w") as f:
+            f.write(r.stdout)
+    return None
+
+
 def build_lean(targets=None):
     """lake build (incremental). Returns (ok, log)."""
     cmd = ["lake", "build"] + (targets or [])
